@@ -3,6 +3,10 @@
 //!
 //! case:  W <cap> <ending-hex> <ops> <script>        (writer over scripted Write)
 //!        S <cap|d> <queue|u> <ops>                   (BufferedSpyMetricSink, d = default capacity, u = unbounded queue)
+//!        CW <cap> <ending-hex> <ops> <script>       (the same history driven through a StatsdClient: a user-written
+//!                                                     buffered sink = Mutex<MultiLineWriter<scripted Write>>, emits via
+//!                                                     send_metric(&Counter::from(text)), flushes via StatsdClient::flush;
+//!                                                     results k | e<id> | i | p - the client does not report byte counts)
 //!   ops    = comma separated  E<hex> | F   ("-" = none)
 //!   script = comma separated  o | i | e<id>  ("-" = empty; exhausted = o)
 //! observation:  R:<res>,..|L:<op>:<hex>:<outcome>;..
@@ -364,9 +368,121 @@ fn run_qf(cap: Option<usize>, ops: &str) -> String {
     )
 }
 
+// ------------------------------------------------------------------------------------------------
+// CW: a writer history through the client
+
+struct SharedTs {
+    script: Vec<Outcome>,
+    pos: usize,
+    cur_op: usize,
+    log: Vec<(usize, Vec<u8>, Outcome)>,
+}
+
+struct ScriptedTs(std::sync::Arc<std::sync::Mutex<SharedTs>>);
+
+impl Write for ScriptedTs {
+    fn write(&mut self, buf: &[u8]) -> io::Result<usize> {
+        let mut s = self.0.lock().unwrap_or_else(|e| e.into_inner());
+        let o = if s.pos < s.script.len() {
+            let o = s.script[s.pos].clone();
+            s.pos += 1;
+            o
+        } else {
+            Outcome::Ok
+        };
+        let op = s.cur_op;
+        s.log.push((op, buf.to_vec(), o.clone()));
+        match o {
+            Outcome::Ok => Ok(buf.len()),
+            Outcome::Intr => Err(io::Error::new(ErrorKind::Interrupted, Payload(0))),
+            Outcome::Err(id) => Err(io::Error::new(ERR_KINDS[(id as usize) % ERR_KINDS.len()], Payload(id))),
+        }
+    }
+    fn flush(&mut self) -> io::Result<()> {
+        Ok(())
+    }
+}
+
+/// what the crate's own buffered sinks are, written by a user from the public pieces
+struct UserBufferedSink {
+    w: std::sync::Mutex<MultiLineWriter<ScriptedTs>>,
+}
+
+impl MetricSink for UserBufferedSink {
+    fn emit(&self, metric: &str) -> io::Result<usize> {
+        self.w.lock().unwrap_or_else(|e| e.into_inner()).write(metric.as_bytes())
+    }
+    fn flush(&self) -> io::Result<()> {
+        self.w.lock().unwrap_or_else(|e| e.into_inner()).flush()
+    }
+}
+
+fn res_metric(r: &cadence::MetricResult<()>) -> String {
+    use std::error::Error;
+    match r {
+        Ok(()) => "k".to_string(),
+        Err(e) => match e.source().and_then(|s| s.downcast_ref::<io::Error>()) {
+            Some(ioe) if ioe.kind() == ErrorKind::Interrupted => "i".to_string(),
+            Some(ioe) => format!("e{}", payload_of(ioe).unwrap_or(0)),
+            None => "e?".to_string(),
+        },
+    }
+}
+
+fn run_client_writer(cap: usize, ending: &[u8], ops: &[Op], script: Vec<Outcome>) -> String {
+    use cadence::ext::MetricBackend;
+    let shared = std::sync::Arc::new(std::sync::Mutex::new(SharedTs { script, pos: 0, cur_op: 0, log: vec![] }));
+    let ending = String::from_utf8(ending.to_vec()).expect("ending must be UTF-8");
+    let sink = UserBufferedSink {
+        w: std::sync::Mutex::new(MultiLineWriter::with_ending(ScriptedTs(shared.clone()), cap, &ending)),
+    };
+    let mut client = Some(cadence::StatsdClient::from_sink("", sink));
+    let mut results: Vec<String> = vec![];
+    let mut panicked = false;
+    for (i, op) in ops.iter().enumerate() {
+        shared.lock().unwrap_or_else(|e| e.into_inner()).cur_op = i;
+        let c = client.as_ref().unwrap();
+        let r = catch(|| match op {
+            Op::Emit(m) => {
+                let text = String::from_utf8(m.clone()).expect("CW payloads are UTF-8");
+                res_metric(&c.send_metric(&cadence::Counter::from(text)))
+            }
+            Op::Flush => res_metric(&c.flush()),
+        });
+        match r {
+            Ok(s) => results.push(s),
+            Err(_) => {
+                results.push("p".to_string());
+                panicked = true;
+                break;
+            }
+        }
+    }
+    shared.lock().unwrap_or_else(|e| e.into_inner()).cur_op = ops.len();
+    if panicked {
+        std::mem::forget(client.take());
+    } else if catch(|| drop(client.take())).is_err() {
+        results.push("p".to_string());
+    }
+    let s = shared.lock().unwrap_or_else(|e| e.into_inner());
+    let log: Vec<String> = s
+        .log
+        .iter()
+        .map(|(op, b, o)| format!("{}:{}:{}", op, hex(b), outcome_str(o)))
+        .collect();
+    format!("R:{}|L:{}", results.join(","), log.join(";"))
+}
+
 pub fn run_case(line: &str) -> String {
     let t: Vec<&str> = line.split_whitespace().collect();
     match t[0] {
+        "CW" => {
+            let cap: usize = t[1].parse().unwrap();
+            let ending = unhex(t[2]);
+            let ops = parse_ops(t[3]);
+            let script = parse_script(t[4]);
+            run_client_writer(cap, &ending, &ops, script)
+        }
         "QF" => {
             let cap = if t[1] == "d" { None } else { Some(t[1].parse().unwrap()) };
             run_qf(cap, t[2])
